@@ -177,6 +177,7 @@ def run(chk, w):
     # ---- FIFO / BOUND / READ on the uplink queues
     uq = sorted(dispatch.queue_roles(P).keys())      # the queue objects themselves (the summaries above use their role names)
     chk.floor("uplink_queues", len(uq), 3)
+    uqn = sorted({k.split("+")[0] for k in uq})       # the globals (a slot of a queue array is named global+offset)
     chk.rule("C06-FIFO", "the uplink queues are only used through new/push_tail/pop_head/get_length/is_empty/free")
     qcalls = []
     for f in P.repo_functions():
@@ -255,16 +256,22 @@ def run(chk, w):
     chk.rule("C06-ACC", "every access to an uplink queue holds that queue's mutex")
     db = access.AccessDB(w)
     n = 0
-    for q in uq:
-        lock, src = db.lock_of((q, None))
-        if lock is None:
-            raise AnalysisBroken("no designated lock for %s" % q)
-        for a in db.by_region.get((q, None), []):
-            n += 1
-            if locks.ls_get(a.ls, lock) is None:
-                chk.violation("C06-ACC", a.fn.name, q, a.loc(), "%s (%s) without %s, lockset %s" % (q, a.what, lock, locks.ls_str(a.ls)))
-            else:
-                chk.ok("C06-ACC", 1)
+    for q in uqn:
+        # the queue object itself, or - when the queues are kept in one file-static array - each of its slots
+        regs = [r for r in db.by_region if r[0] == q and (r[1] is None or str(r[1]).startswith("["))] or [(q, None)]
+        if len(regs) > 1:
+            regs = [r for r in regs if r[1] is not None]
+        for reg in sorted(regs, key=str):
+            lock, src = db.lock_of(reg)
+            qn = q + (reg[1] or "")
+            if lock is None:
+                raise AnalysisBroken("no designated lock for %s" % qn)
+            for a in db.by_region.get(reg, []):
+                n += 1
+                if locks.ls_get(a.ls, lock) is None:
+                    chk.violation("C06-ACC", a.fn.name, qn, a.loc(), "%s (%s) without %s, lockset %s" % (qn, a.what, lock, locks.ls_str(a.ls)))
+                else:
+                    chk.ok("C06-ACC", 1)
     chk.floor("uplink_queue_accesses", n, 25)
 
 
